@@ -15,6 +15,10 @@ import z3
 from ufv import num as N
 
 
+# printing of huge terms must never dominate the run time (samples in the evidence are truncated anyway)
+z3.set_option(max_args=6, max_lines=12, max_depth=7, max_visited=300, max_width=160)
+
+
 class Verdict:
     __slots__ = ("status", "backend", "model", "seconds", "detail")
 
@@ -30,9 +34,15 @@ class Verdict:
 
 
 def _is_zero_term(t):
+    """Sound zero test: exact polynomial normaliser first (rational functions, sqrt/abs atoms), then z3's
+    sum-of-monomials normal form (handles If-terms and uninterpreted functions syntactically)."""
     if not N.is_z3(t):
         return t == 0
-    s = z3.simplify(t, som=True, som_blowup=10 ** 8)
+    from ufv.alg import is_identically_zero
+    z, _info, _na = is_identically_zero(t, budget_terms=200000)
+    if z:
+        return True
+    s = z3.simplify(t, som=True, som_blowup=10 ** 5)
     return z3.is_rational_value(s) and s.numerator_as_long() == 0
 
 
@@ -132,7 +142,19 @@ def prove_equal(world, got, spec, timeout_ms=10000, pre=(), use_cvc5=True):
         rest2.append(t)
     if not rest2:
         return Verdict("proved", "z3-simplify(cleared-denominators)", None, time.time() - t0)
-    rest = rest2
+    # exact polynomial normaliser with algebraic atoms (own dict arithmetic; sqrt/abs atoms reduced by s^2 = q)
+    from ufv.alg import is_identically_zero
+    rest3 = []
+    natoms = 0
+    for t in rest2:
+        z, _info, na = is_identically_zero(t)
+        if z:
+            natoms = max(natoms, na)
+            continue
+        rest3.append(t)
+    if not rest3:
+        return Verdict("proved", f"poly-normaliser({natoms} algebraic atoms)", None, time.time() - t0)
+    rest = rest3
     goal = z3.And(*[t == 0 for t in rest])
     v = check_formula(list(world.axioms) + list(world.side) + list(pre), goal, timeout_ms, use_cvc5)
     v.seconds = time.time() - t0
